@@ -220,6 +220,22 @@ def _s_unused_outputs(v):
     return d.hugr
 
 
+def _s_same_def(v):
+    """the same operation definition at several type arguments (integer widths) side by side, plus one of them
+    twice: every node statement carries the name of its own operation"""
+    from hugr.build.dfg import Dfg
+    from hugr.std.int import _DivModDef, int_t
+
+    widths = [[5, 6], [3, 5, 3], [6, 2, 5, 6], [4, 5]][v % 4]
+    d = Dfg(*[int_t(w) for w in widths])
+    outs = []
+    for w, x in zip(widths, d.inputs()):
+        n = d.add(_DivModDef(width=w)(x, x))
+        outs += [n[0], n[1]] if (v + w) % 2 else [n[1]]
+    d.set_outputs(*outs)
+    return d.hugr
+
+
 def _s_deep(v):
     """containers nested several levels deep, with a wire from the outermost level used at the innermost"""
     from hugr import tys
@@ -450,6 +466,7 @@ SCRIPTS = {
     "cfg_loop": _s_cfg_loop,
     "metadata": _s_metadata,
     "unused_outputs": _s_unused_outputs,
+    "same_def": _s_same_def,
     "deep": _s_deep,
     "static": _s_static,
     "cond_loop": _s_cond_loop,
@@ -1022,6 +1039,8 @@ def cases(rng, tier):
         for v in range(n_var):
             allc = _all_configs(rng)
             cs = allc if tier != "quick" else rng.sample(allc, 3)
+            if not any(c["qualify"] for c in cs):
+                cs = cs[:-1] + [rng.choice([c for c in allc if c["qualify"]])]
             yield {"kind": "script", "name": name, "v": v, "configs": cs}
     for i in range(n_mod):
         allc = _all_configs(rng)
